@@ -374,7 +374,10 @@ def _cause(case, sources, k, verdict, results, out):
 
     prefix = [list(o) for o in ops[:k]]
     if not prefix:
-        return (*describe([]), True)
+        if victim[0] == "a":
+            return (*describe([]), True)
+        # first compile of the case differs from the fresh interpreter: caused by earlier cases of this worker
+        return "earlier-cases-of-this-worker", "", False
     kinds_in_order = []
     for o in prefix:
         if kind(o) not in kinds_in_order:
